@@ -396,6 +396,16 @@ theorem winTable_ok_any (recs : List Rec) (h : ∀ x ∈ recs, x.size < 2 ^ 32) 
   have := mkRange_wf (hinv p hp).1
   exact ⟨this.1, this.2.1⟩
 
+/-- C11's `SymbolParser::finish` builds every file whose STACK WIN sizes fit `u32` (C11's `build_ok`
+    is for files without STACK WIN records) -/
+theorem build_okW (r : Symbolize.Recs) (h4 : ∀ x ∈ r.win4, x.size < 2 ^ 32)
+    (h0 : ∀ x ∈ r.win0, x.size < 2 ^ 32) : ∃ csf, Symbolize.build r = .ok csf := by
+  obtain ⟨t4, e4⟩ := winTable_ok_any _ h4
+  obtain ⟨t0, e0⟩ := winTable_ok_any _ h0
+  unfold Symbolize.build
+  simp only [Symbolize.finishAll_ok, safeP_ok _ (Symbolize.funcInput_wf _), e4, e0]
+  exact ⟨_, rfl⟩
+
 /-- C11 answers on the canonical related record list WITH the STACK WIN records -/
 theorem c11_answersW (sf : Walk.SymFile) (wins : List Win.Rec) (hsz : ∀ x ∈ wins, x.size < 2 ^ 32)
     (base instr : Nat) (hi : instr ≤ U64MAX) :
@@ -407,18 +417,7 @@ theorem c11_answersW (sf : Walk.SymFile) (wins : List Win.Rec) (hsz : ∀ x ∈ 
     split at hx
     · cases hx; exact hsz w hw
     · cases hx
-  obtain ⟨t4, e4⟩ := winTable_ok_any _ (hk isFd)
-  obtain ⟨t0, e0⟩ := winTable_ok_any _ (hk isFpo)
-  obtain ⟨csf, hb⟩ : ∃ csf, Symbolize.build (recsOfW sf wins) = .ok csf := by
-    unfold Symbolize.build
-    simp only [Symbolize.finishAll_ok, safeP_ok _ (Symbolize.funcInput_wf _)]
-    show ∃ csf, (match Symbolize.winTable (kindOf isFd wins) with
-      | .panic s => Outcome.panic s
-      | .ok wfd => match Symbolize.winTable (kindOf isFpo wins) with
-        | .panic s => Outcome.panic s
-        | .ok wfpo => _) = Outcome.ok csf
-    rw [e4, e0]
-    exact ⟨_, rfl⟩
+  obtain ⟨csf, hb⟩ := build_okW (recsOfW sf wins) (hk isFd) (hk isFpo)
   obtain ⟨fr, hfr⟩ := Symbolize.fill_no_panic hb base instr hi (by
     intro f hf
     have hf' : f ∈ (recsOf sf).funcs := hf
@@ -783,5 +782,119 @@ example (csf : Symbolize.SymFile) (hb : Symbolize.build exRecs = .ok csf) (fr : 
   have := hw 0 ⟨0x1000, 0x100, "m"⟩ exSf h1 rfl rfl exRecs csf fr ex_rel rfl rfl hb (by rw [hi]; exact h)
   rw [h2] at this
   exact ⟨h1, h2, this.symm⟩
+
+/-! ### non-vacuity, STACK WIN: frame data over FPO over FUNC, a PUBLIC left alone -/
+
+/-- `STACK WIN 4 10 8 … 8 … 1 $eip 4 + ^ =` (frame data, parameter size 8),
+    `STACK WIN 0 10 20 … c … 0 1` (FPO, parameter size 12), and a line whose type and
+    `has_program_string` disagree (ignored by the parser) -/
+def exWins : List Win.Rec :=
+  [ ⟨'4', 0x10, 8, 8, 0, 0, '1', "$eip 4 + ^ =".toList⟩,
+    ⟨'0', 0x10, 0x20, 12, 0, 0, '0', ['1']⟩,
+    ⟨'4', 0x10, 0x20, 16, 0, 0, '0', ['1']⟩ ]
+
+/-- `exRecs` (with its line / INLINE sub-records) plus C11's reading of those STACK WIN lines -/
+def exRecsW : Symbolize.Recs := { exRecs with win4 := [⟨0x10, 8, 8⟩], win0 := [⟨0x10, 0x20, 12⟩] }
+
+theorem ex_winRel : WinRel exWins exRecsW := ⟨by decide, by decide⟩
+
+theorem ex_relW : FileRel exSf exRecsW := ⟨by decide, by decide⟩
+
+theorem ex_winTables : Walk.winTables exWins =
+    { typed := exWins.map Win.classifyRec,
+      fd := [(⟨0x10, 0x17⟩, (Rec.mk 0x10 8 0).enc)], fpo := [(⟨0x10, 0x2f⟩, (Rec.mk 0x10 0x20 1).enc)] } := by
+  have e4 : wFd exWins = [(0x10, 8, 0)] := by decide
+  have e0 : wFpo exWins = [(0x10, 0x20, 1)] := by decide
+  have b4 : Win.buildTable [(0x10, 8, 0)] = .ok [(⟨0x10, 0x17⟩, (Rec.mk 0x10 8 0).enc)] := by
+    unfold Win.buildTable
+    simp [insertWinAll, insertWin, mkRange, U64MAX, safeP, tryFromIter, safeVecP, sortEntries, pass, keep, disc]
+  have b0 : Win.buildTable [(0x10, 0x20, 1)] = .ok [(⟨0x10, 0x2f⟩, (Rec.mk 0x10 0x20 1).enc)] := by
+    unfold Win.buildTable
+    simp [insertWinAll, insertWin, mkRange, U64MAX, safeP, tryFromIter, safeVecP, sortEntries, pass, keep, disc]
+  rw [winTables_eq, e4, e0, b4, b0]
+
+/-- the walker model computed: at 0x18 only the FPO record covers ⇒ 12; at 0x10 frame data wins ⇒ 8
+    (the FUNC says 4); the PUBLIC at 0x0c keeps its own 0 -/
+theorem ex_walkW :
+    Walk.fillSymbolW exSf (Walk.funcTable exSf) (Walk.winTables exWins) 0x1000 0x1018 = some ⟨"f", 0x1010, 12⟩ ∧
+    Walk.fillSymbolW exSf (Walk.funcTable exSf) (Walk.winTables exWins) 0x1000 0x1010 = some ⟨"f", 0x1010, 8⟩ ∧
+    Walk.fillSymbolW exSf (Walk.funcTable exSf) (Walk.winTables exWins) 0x1000 0x100c = some ⟨"p", 0x1008, 0⟩ := by
+  rw [ex_winTables, ex_funcTable]
+  refine ⟨by decide, by decide, by decide⟩
+
+/-- `walk_fillW_eq_c11` on the concrete file: every hypothesis holds, C11's model (records WITH
+    sub-records and STACK WIN triples) answers exactly what the walker model computed -/
+example (csf : Symbolize.SymFile) (hb : Symbolize.build exRecsW = .ok csf) (fr1 fr2 fr3 : Symbolize.Frame)
+    (h1 : Symbolize.fillSymbol csf 0x1000 0x1018 = .ok fr1)
+    (h2 : Symbolize.fillSymbol csf 0x1000 0x1010 = .ok fr2)
+    (h3 : Symbolize.fillSymbol csf 0x1000 0x100c = .ok fr3) :
+    fr1.fn = some ([102], 0x1010, 12) ∧ fr2.fn = some ([102], 0x1010, 8) ∧ fr3.fn = some ([112], 0x1008, 0) := by
+  have hs : ∀ w ∈ exWins, w.size < 2 ^ 32 := by decide
+  have hl : exWins.length ≤ 2 ^ 64 := by decide
+  obtain ⟨w1, w2, w3⟩ := ex_walkW
+  rw [← walk_fillW_eq_c11 ex_relW ex_winRel hs hl hb h1, ← walk_fillW_eq_c11 ex_relW ex_winRel hs hl hb h2,
+    ← walk_fillW_eq_c11 ex_relW ex_winRel hs hl hb h3, w1, w2, w3]
+  decide
+
+/-- … and such a built file and answer exist -/
+example : ∃ csf fr, Symbolize.build exRecsW = .ok csf ∧ Symbolize.fillSymbol csf 0x1000 0x1018 = .ok fr := by
+  obtain ⟨csf, hb⟩ := build_okW exRecsW (by decide) (by decide)
+  obtain ⟨fr, hfr⟩ := Symbolize.fill_no_panic hb 0x1000 0x1018 (by decide)
+    (by intro f hf
+        have hf' : f ∈ exRecs.funcs := hf
+        simp only [exRecs, List.mem_singleton] at hf'; subst hf'; decide)
+  exact ⟨csf, fr, hb, hfr⟩
+
+/-- a walk of `mkEnvW` (module 0 with `exSf` and `exWins`): the context frame at 0x1018 carries
+    `f @ 0x1010` with the FPO record's parameter size 12 — by `walk_frames_follow_c11W` C11's answer
+    on `exRecsW` -/
+example (csf : Symbolize.SymFile) (hb : Symbolize.build exRecsW = .ok csf) (fr : Symbolize.Frame)
+    (h : Symbolize.fillSymbol csf 0x1000 0x1018 = .ok fr) :
+    ∀ f ∈ Walk.walk (Walk.mkEnvW .amd64 .other exWorld [exWins] ⟨0, #[], false⟩) none { ip := 0x1018, sp := 0 },
+      f.module = some 0 ∧ f.func = some ⟨"f", 0x1010, 12⟩ ∧ fr.fn = some ([102], 0x1010, 12) := by
+  intro f hf
+  have hw := walk_frames_follow_c11W .amd64 .other exWorld [exWins] ⟨0, #[], false⟩ none { ip := 0x1018, sp := 0 } f hf
+  obtain ⟨h1, h2⟩ := Walk.walk_symbolised _ _ _ f hf
+  have hi : f.instruction = 0x1018 := by
+    simp only [Walk.walk, Option.bind_none, List.mem_singleton] at hf
+    subst hf; rfl
+  have e : (Walk.mkEnvW .amd64 .other exWorld [exWins] ⟨0, #[], false⟩).symb 0x1018 =
+      (some 0, Walk.fillSymbolW exSf (Walk.funcTable exSf) (Walk.winTables exWins) 0x1000 0x1018) := by
+    show Walk.symbOfW exWorld (Walk.modTable exWorld.mods) _ _ 0x1018 = _
+    rw [ex_modTable]
+    rfl
+  rw [hi, e] at h1 h2
+  simp only [Option.isSome_some, if_true, ex_walkW.1] at h2
+  have := hw 0 ⟨0x1000, 0x100, "m"⟩ exSf h1 rfl rfl exRecsW csf fr ex_relW ex_winRel
+    (by decide) (by decide) hb (by rw [hi]; exact h)
+  rw [h2] at this
+  exact ⟨h1, h2, this.symm⟩
+
+/-! ### non-vacuity, scan validation -/
+
+theorem ex_instrOk :
+    Walk.instrOkOf exWorld (Walk.modTable exWorld.mods) (ftblsOf exWorld) 0x1019 = true ∧
+    Walk.instrOkOf exWorld (Walk.modTable exWorld.mods) (ftblsOf exWorld) 0x1035 = false ∧
+    Walk.instrOkOf exWorld (Walk.modTable exWorld.mods) (ftblsOf exWorld) 0x2001 = false := by
+  have e : ftblsOf exWorld = [Walk.funcTable exSf] := rfl
+  rw [e, ex_modTable, ex_funcTable]
+  refine ⟨by decide, by decide, by decide⟩
+
+/-- `instr_ok_follows_c11` on the concrete module: the scanned word 0x1019 (inside the FUNC) passes
+    and C11 reports a named function there; 0x1035 (the PUBLIC cut off by the FUNC) is rejected and
+    C11 reports nothing there -/
+example (csf : Symbolize.SymFile) (hb : Symbolize.build exRecs = .ok csf) (fr1 fr2 : Symbolize.Frame)
+    (h1 : Symbolize.fillSymbol csf 0x1000 0x1018 = .ok fr1)
+    (h2 : Symbolize.fillSymbol csf 0x1000 0x1034 = .ok fr2) : C11Named fr1 ∧ ¬ C11Named fr2 := by
+  have m1 : Walk.moduleAt (Walk.modTable exWorld.mods) (0x1019 - 1) = some 0 := by rw [ex_modTable]; decide
+  have m2 : Walk.moduleAt (Walk.modTable exWorld.mods) (0x1035 - 1) = some 0 := by rw [ex_modTable]; decide
+  have a1 := ((instr_ok_follows_c11 exWorld 0x1019).2 0 (by decide) m1).2 ⟨0x1000, 0x100, "m"⟩ exSf rfl rfl
+    exRecs csf fr1 ex_rel hb h1
+  have a2 := ((instr_ok_follows_c11 exWorld 0x1035).2 0 (by decide) m2).2 ⟨0x1000, 0x100, "m"⟩ exSf rfl rfl
+    exRecs csf fr2 ex_rel hb h2
+  refine ⟨a1.mp ex_instrOk.1, fun hn => ?_⟩
+  have := a2.mpr hn
+  rw [ex_instrOk.2.1] at this
+  cases this
 
 end MdModel.SymBridge
